@@ -390,6 +390,13 @@ def dry_files(lang, u, nfiles, n, noise):
             # line): line numbers must not be counted with splitlines()
             ch = ["\x0c", "\x0b", "\x1c", "\x1d", "\x1e", "\x85", "\u2028", "\u2029"][nz["sep"] % 8]
             lines.append(f"{c} section{ch}break {k}")
+        b = nz.get("blockc", 0)
+        if b and lang != "py":
+            # a plain (non-JSDoc) block comment over b lines above the code, and a string spanning b lines in Python:
+            # whoever strips it must keep the line count
+            lines += ["/* overview of file %d" % k] + [f"   continued line {i}" for i in range(b - 2)] + ["   end of overview */"]
+        elif b:
+            lines += [f'banner_{u}_{k} = """overview of file {k}'] + [f"continued line {i}" for i in range(b - 2)] + ['end of overview"""']
         if lines:
             lines.append("")
         d = nz.get("doc", 0)
@@ -412,7 +419,12 @@ def dry_files(lang, u, nfiles, n, noise):
         for i, s in enumerate(stmts):
             for pos in inside:
                 if pos % n == i and i > 0:
-                    lines.append("" if pos // n % 2 == 0 else f"    {c} remark {pos} in file {k}")
+                    if pos // n % 2 == 0:
+                        lines.append("")
+                    elif lang != "py" and nz.get("blockc") and pos % 2:
+                        lines += [f"    /* remark {pos} in file {k}", "       over two lines */"]
+                    else:
+                        lines.append(f"    {c} remark {pos} in file {k}")
             at.append(len(lines) + 1)
             lines.append(s)
         if lang == "py":
